@@ -197,6 +197,14 @@ def run(ctx):
     rule_c(ctx, cr)
     rule_d(ctx, cr, fns)
     rule_e(ctx, cr)
+    ctx.rule("C07.f", "MID$ returns a slice of its argument that starts at the requested position, "
+             "or the empty string: the argument string itself is never handed back unsliced (a "
+             "start position past the end yields \"\", not the whole string)")
+    ctx.rule("C07.g", "a signed BASIC number becomes an unsigned count/position only under a sign "
+             "test of the same value (>= 0 true / < 0 false), so a negative argument is an error "
+             "and not a huge position; the compiler-emitted counts are the reviewed exceptions")
+    rule_f(ctx, cr)
+    rule_g(ctx, cr)
     common.selftest(ctx, "C07.a", ["raw_slice_from_number"], lambda col, f: check_slices(col, f))
     common.selftest(ctx, "C07.d", ["find_sentinel"], lambda col, f: rule_d(col, None, [f]))
 
@@ -308,8 +316,79 @@ def rule_e(ctx, cr):
         ok = False
         for b, code, span in f.error_codes():
             for op, l, r, truth in f.cmp_conds_at(b):
-                if op == "Eq" and truth and f.describe(r) == "const:0":
+                rd = f.describe(r)
+                if (op, truth, rd) in (("Eq", True, "const:0"), ("Le", True, "const:0"),
+                                       ("Lt", True, "const:1"), ("Gt", False, "const:0"),
+                                       ("Ge", False, "const:1")):
                     ok = True
         ctx.check(ok, "C07.e", "%s/position-zero" % path, f.span,
                   "position 0 is rejected with an error",
                   "position 0 is no longer rejected in %s" % path.rsplit("::", 1)[-1])
+
+
+def rule_f(ctx, cr):
+    f = cr.need_fn("mach::function::Function::mid")
+    ctx.touch(f)
+    n = 0
+    for b, i, st in f.aggregates("mach::val::Val", "String"):
+        n += 1
+        d = f.describe(st["rv"]["ops"][0])
+        sliced = "ops::Index" in d and "Into<U>>::into" in d
+        unsliced_input = "TryFrom<mach::val::Val>>::try_from" in d and not sliced
+        ctx.check(not unsliced_input, "C07.f", "mid/result#%d" % n, st["span"],
+                  "a slice of the argument" if sliced else "a constant / derived string",
+                  "MID$ returns its whole argument on this path (the `position not found` arm of "
+                  "the start lookup): MID$(\"ABC\",4) gives \"ABC\" instead of \"\"")
+    ctx.floor("C07.f", "strings returned by Function::mid", n, 4)
+
+
+SIGNED_CAST_OK = {
+    "<mach::stack::Stack<mach::val::Val> as mach::runtime::RuntimeStackTrait<mach::val::Val>>"
+    "::pop_vec#1": "argument count emitted by the code generator (Literal pushed by codegen)",
+    "mach::function::Function::asc#1": "i16::max_value() constant",
+    "mach::runtime::Runtime::def#1": "arity literal emitted by push_def_fn",
+    "mach::runtime::Runtime::do_input#1": "variable count literal emitted by Generator::input",
+}
+
+
+def rule_g(ctx, cr):
+    n = 0
+    for p, f in sorted(cr.fns.items()):
+        if not (p.startswith("mach::function::") or p.startswith("mach::runtime::")
+                or p.startswith("<mach::stack::") or p.startswith("mach::var::")):
+            continue
+        k = 0
+        for b, i, st in f.assigns():
+            rv = st["rv"]
+            if not (rv["k"] == "cast" and rv["kind"] == "IntToInt"
+                    and rv["from"] in ("i8", "i16", "i32", "i64", "isize")
+                    and rv["to"] in ("u8", "u16", "u32", "u64", "usize")):
+                continue
+            k += 1
+            n += 1
+            key = "%s#%d" % (p, k)
+            ok = False
+            why = ""
+            v = f.value_of_operand(rv["op"])
+            src = rv["op"]
+            neg = v and v.get("k") == "rv" and v["rv"]["k"] == "unop" and v["rv"]["op"] == "Neg"
+            if neg:
+                src = v["rv"].get("o")
+            for op, l, r, truth in f.cmp_conds_at(b):
+                if src is None or not f.same_origin(l, src):
+                    continue
+                zero = f.describe(r) in ("const:0", "const:1")
+                if not zero:
+                    continue
+                if not neg and ((op == "Ge" and truth) or (op == "Lt" and not truth)
+                                or (op == "Gt" and truth) or (op == "Le" and not truth)):
+                    ok, why = True, "under a sign test"
+                if neg and ((op == "Lt" and truth) or (op == "Ge" and not truth)):
+                    ok, why = True, "negation of a value known to be negative"
+            if not ok and key in SIGNED_CAST_OK:
+                ok, why = True, SIGNED_CAST_OK[key]
+            ctx.check(ok, "C07.g", "signed-cast/" + key, st["span"], why,
+                      "`%s as %s` of a signed value with no sign test on the path: a negative "
+                      "argument turns into a huge position/count instead of an error "
+                      "(INSTR(-1,..) answers 0)" % (f.describe(rv["op"])[:60], rv["to"]))
+    ctx.floor("C07.g", "signed->unsigned casts", n, 9)
